@@ -150,7 +150,8 @@ CLAIMS["C14"] = kclaim(
 CLAIMS["C15"] = kclaim(
     "Verus (generic payload T): the real hand-written and derived (taken from the macro expansion) eq / cmp / partial_cmp bodies of Score, Error, TestResult, TestResults and "
     "EcIndividual are proved against spec functions over T's own order: scores ascending, errors reversed, TestResult None exactly across kinds, collections and individuals exactly "
-    "as their totals / test results; lemmas: lawfulness (reflexive, antisymmetric, transitive, partial_cmp == Some(cmp)) is inherited from T, and Error orders opposite to Score. "
+    "as their totals / test results; lemmas: lawfulness (reflexive, antisymmetric, transitive, partial_cmp == Some(cmp)) is inherited from T, and Error orders opposite to Score; GenomeScorer::apply (arbitrary genome maker and scorer) returns exactly the maker's genome paired with the "
+    "scorer's result for that genome. "
     "Kani, complete for i64 payloads (loop-free, all values): the compiled cmp / partial_cmp / == / < <= > >= of Score (derived), Error (hand-written reverse), TestResult (None exactly "
     "across kinds), TestResults and EcIndividual (exactly as their totals / test results) — ascending for scores, descending for errors, operators mutually consistent. "
     "IndividualGenerator::sample and GenomeScorer::apply carry exactly the genome produced and the scorer's answer for that genome. TestResults::from / from_iter: results kept in "
